@@ -13,22 +13,55 @@ open ExprModel.Spec
 /-- the program value the VM runs for a compiled expression -/
 def progOf (cp : Compiled) : Prog := { code := cp.bytes.toArray, consts := cp.consts }
 
-theorem codeAt_of_layout {P : Prog} {pre code post : List LInstr}
-    (h : P.code = (encodeAll ((pre ++ code ++ post).map (·.instr))).toArray) (hf : FitsU16 code) :
+/-- the same with its instruction list and a blame relation -/
+def lprogOf (cp : Compiled) (bl : ErrClass → Loc → Prop) : LProg :=
+  { prog := progOf cp, full := cp.code, enc := rfl, blame := bl }
+
+theorem codeAt_of_layout {P : LProg} {pre code post : List LInstr}
+    (h : P.full = pre ++ code ++ post) (hf : FitsU16 code) :
     CodeAt P (lsize pre) code := ⟨pre, post, h, rfl, hf⟩
+
+mutual
+theorem AllN.of_forall {p : Node → Prop} (h : ∀ n, p n) : ∀ n, AllN p n
+  | .nil _ | .ident .. | .int .. | .float .. | .bool .. | .str .. | .const .. | .pointer _ => h _
+  | .unary _ _ x => ⟨h _, AllN.of_forall h x⟩
+  | .binary _ _ l r => ⟨h _, AllN.of_forall h l, AllN.of_forall h r⟩
+  | .matches _ _ l r => ⟨h _, AllN.of_forall h l, AllN.of_forall h r⟩
+  | .prop _ x _ _ => ⟨h _, AllN.of_forall h x⟩
+  | .index _ x i => ⟨h _, AllN.of_forall h x, AllN.of_forall h i⟩
+  | .slice _ x f t => ⟨h _, AllN.of_forall h x, AllNO.of_forall h f, AllNO.of_forall h t⟩
+  | .method _ x _ a _ => ⟨h _, AllN.of_forall h x, AllNL.of_forall h a⟩
+  | .func _ _ a _ => ⟨h _, AllNL.of_forall h a⟩
+  | .builtin _ _ a => ⟨h _, AllNL.of_forall h a⟩
+  | .closure _ x => ⟨h _, AllN.of_forall h x⟩
+  | .cond _ c a b => ⟨h _, AllN.of_forall h c, AllN.of_forall h a, AllN.of_forall h b⟩
+  | .array _ xs => ⟨h _, AllNL.of_forall h xs⟩
+  | .map _ ps => ⟨h _, AllNL.of_forall h ps⟩
+  | .pair _ k v => ⟨h _, AllN.of_forall h k, AllN.of_forall h v⟩
+theorem AllNO.of_forall {p : Node → Prop} (h : ∀ n, p n) : ∀ n, AllNO p n
+  | none => trivial
+  | some n => AllN.of_forall h n
+theorem AllNL.of_forall {p : Node → Prop} (h : ∀ n, p n) : ∀ ns, AllNL p ns
+  | [] => trivial
+  | n :: ns => ⟨AllN.of_forall h n, AllNL.of_forall h ns⟩
+end
+
+/-- with the trivial blame relation the blame obligations are void -/
+theorem allBlame_trivial (c : Cfg) (P : LProg) (hP : ∀ e l, P.blame e l) (n : Node) : AllBlame c P n :=
+  AllN.of_forall (fun m ctx σ e σ' _ => hP e m.loc) n
 
 /-- compiler output simulates the Spec (all the pool reasoning discharged) -/
 theorem compile_sim {cfg : CompCfg} {n : Node} {pool pool' : Pool} {code : List LInstr} {F : Val → Prop} {loops : Node → Prop}
-    {c : Cfg} {P : Prog} (hc : compileNode cfg n pool = .ok (code, pool')) (hF : AliasFree F) (hinv : PoolInv F pool)
+    {c : Cfg} {P : LProg} (hc : compileNode cfg n pool = .ok (code, pool')) (hF : AliasFree F) (hinv : PoolInv F pool)
     (hfl : FloatsIn F n) (hg : Good loops n) (hK : PoolExt pool' P.consts) (henv : EnvOK c cfg)
-    (hloop : LoopCase c P loops) (ctx : Ctx) : Sim c P ctx n code :=
-  sim henv hloop n code ctx ((compile_compiles cfg F hF n pool code pool' hc hinv hfl).comp _ hK) hg
+    (hloop : LoopCase c P loops) (hB : AllBlame c P n) (ctx : Ctx) : Sim c P ctx n code :=
+  sim henv hloop n code ctx ((compile_compiles cfg F hF n pool code pool' hc hinv hfl).comp _ hK) hg hB
 
 /-! ### the dispatch loop -/
 
-theorem loop_ok {c : Cfg} {P : Prog} {s : VM} {ip : Nat} {v : Val} {st : List Val} {scs : List Scope} {σ : SState} {lim : Int}
-    (h : Reach c P s (vm ip (v :: st) scs σ lim)) (hend : P.code.size ≤ ip) :
-    ∃ N, ∀ fuel, N ≤ fuel → ∃ t, loop c P fuel s = (.ok v, t) ∧ noPP t = vm ip st scs σ lim := by
+theorem loop_ok {c : Cfg} {P : LProg} {s : VM} {ip : Nat} {v : Val} {st : List Val} {scs : List Scope} {σ : SState} {lim : Int}
+    (h : Reach c P s (vm ip (v :: st) scs σ lim)) (hend : P.prog.code.size ≤ ip) :
+    ∃ N, ∀ fuel, N ≤ fuel → ∃ t, loop c P.prog fuel s = (.ok v, t) ∧ noPP t = vm ip st scs σ lim := by
   obtain ⟨t', hs, ht'⟩ := h
   obtain ⟨n, hn⟩ := loop_of_steps hs
   refine ⟨n + 1, fun fuel hf => ?_⟩
@@ -40,9 +73,9 @@ theorem loop_ok {c : Cfg} {P : Prog} {s : VM} {ip : Nat} {v : Val} {st : List Va
   rw [loop, if_neg (by simpa using hend)]
   exact ⟨_, rfl, rfl⟩
 
-theorem loop_err {c : Cfg} {P : Prog} {s : VM} {e : ErrClass} {σ : SState} (h : ReachErr c P s e σ) :
-    ∃ N, ∀ fuel, N ≤ fuel → ∃ t, loop c P fuel s = (.error e, t) ∧ obs t = σ := by
-  obtain ⟨s1, s2, hs, hlt, hst, ho⟩ := h
+theorem loop_err {c : Cfg} {P : LProg} {s : VM} {e : ErrClass} {σ : SState} (h : ReachErr c P s e σ) :
+    ∃ N, ∀ fuel, N ≤ fuel → ∃ t, loop c P.prog fuel s = (.error e, t) ∧ obs t = σ := by
+  obtain ⟨s1, s2, hs, hlt, hst, ho, _⟩ := h
   obtain ⟨n, hn⟩ := loop_of_steps hs
   refine ⟨n + 1, fun fuel hf => ?_⟩
   obtain ⟨k, rfl⟩ : ∃ k, fuel = (k + 1) + n := ⟨fuel - n - 1, by omega⟩
@@ -57,11 +90,11 @@ theorem castV_other {t : Nat} (h : ¬(t = 0 ∨ t = 1)) (v : Val) : castV t v = 
   | 1, h => exact absurd (.inr rfl) h
   | t + 2, _ => rfl
 
-theorem Runs.cast_any {c : Cfg} {P : Prog} {k : Nat} {l : Loc} {r : List LInstr} {st : List Val} {scs : List Scope}
-    {σ : SState} {lim : Int} {t : Nat} {v : Val} (h : CodeAt P k (li l .cast t :: r)) :
+theorem Runs.cast_any {c : Cfg} {P : LProg} {k : Nat} {l : Loc} {r : List LInstr} {st : List Val} {scs : List Scope}
+    {σ : SState} {lim : Int} {t : Nat} {v : Val} (h : CodeAt P k (li l .cast t :: r)) (hb : RBlame P l (castV t v)) :
     Runs c P (vm k (v :: st) scs σ lim) (outcome (castV t v) (k + 3) st scs σ lim) := by
   by_cases ht : t = 0 ∨ t = 1
-  · exact Runs.cast h ht
+  · exact Runs.cast h ht hb
   · rw [castV_other ht]
     refine Runs.exec h rfl ?_
     have h0 : (t == 0 || t == 1) = false := by
@@ -93,10 +126,19 @@ theorem specRun_eq (sc : SCfg) (cast : Option Nat) (n : Node) (r : R Val) (σ' :
 def RunAgrees (out : R Val × VM) (spec : R Val × SState) : Prop :=
   out.1 = spec.1 ∧ obs out.2 = spec.2 ∧ (∀ v, out.1 = .ok v → out.2.stack = [] ∧ out.2.scopes = [])
 
-theorem run_conforms_gen {cfg : CompCfg} {n : Node} {cp : Compiled} {F : Val → Prop} {loops : Node → Prop} {c : Cfg}
+/-- the expected end of a whole program -/
+def progOutcome (c : Cfg) (cfg : CompCfg) (n : Node) (cp : Compiled) : Res :=
+  outcome (Spec.run (specOf c) cfg.cast n).1 (lsize cp.code) [] [] (Spec.run (specOf c) cfg.cast n).2 c.budget
+
+/-- **whole programs, at the level of `Runs`** (value and failure direction, with the blame relation of the
+    failure direction: C13) -/
+theorem program_runs {cfg : CompCfg} {n : Node} {cp : Compiled} {F : Val → Prop} {loops : Node → Prop} {c : Cfg}
+    (bl : ErrClass → Loc → Prop)
     (hc : compileProgram cfg n = .ok cp) (hF : AliasFree F) (hfl : FloatsIn F n) (hg : Good loops n)
-    (hfit : FitsU16 cp.code) (henv : EnvOK c cfg) (hloop : LoopCase c (progOf cp) loops) :
-    ∃ N, ∀ fuel, N ≤ fuel → RunAgrees (run c (progOf cp) fuel) (Spec.run (specOf c) cfg.cast n) := by
+    (hfit : FitsU16 cp.code) (henv : EnvOK c cfg) (hloop : LoopCase c (lprogOf cp bl) loops)
+    (hB : AllBlame c (lprogOf cp bl) n)
+    (hcb : ∀ t v e, cfg.cast = some t → castV t v = .error e → bl e {}) :
+    Runs c (lprogOf cp bl) (vm 0 [] [] {} c.budget) (progOutcome c cfg n cp) := by
   unfold compileProgram at hc
   rw [bind_ok] at hc
   obtain ⟨⟨code, p⟩, hcn, hcp⟩ := hc
@@ -107,78 +149,70 @@ theorem run_conforms_gen {cfg : CompCfg} {n : Node} {cp : Compiled} {F : Val →
   simp only [pure_ok] at hcp
   subst hcp
   have hinv : PoolInv F {} := ⟨fun i w h => by simp at h, fun o h => by cases h⟩
-  have hsim := compile_sim (c := c) (P := progOf ⟨code ++ _, p.consts⟩) hcn hF hinv hfl hg (PoolExt.refl p) henv hloop []
+  have hsim := compile_sim (c := c) (P := lprogOf ⟨code ++ _, p.consts⟩ bl) hcn hF hinv hfl hg (PoolExt.refl p) henv hloop hB []
+  unfold progOutcome
   cases hev : eval (specOf c) [] n {} with
   | mk r σ' =>
   rw [specRun_eq _ _ _ _ _ hev]
   cases hcast : cfg.cast with
   | none =>
     simp only [hcast, List.append_nil, specOut] at hfit hsim hloop ⊢
-    have hcode : CodeAt (progOf ⟨code, p.consts⟩) 0 code :=
-      (codeAt_of_layout (pre := []) (post := []) (by simp [progOf, Compiled.bytes]) hfit)
+    have hcode : CodeAt (lprogOf ⟨code, p.consts⟩ bl) 0 code :=
+      (codeAt_of_layout (pre := []) (post := []) (by simp [lprogOf]) hfit)
     have hrun := hsim 0 [] [] {} r σ' hcode rfl hev
-    have hsize : (progOf ⟨code, p.consts⟩).code.size = lsize code := by
-      simp [progOf, Compiled.bytes, encodeAll_length, lsize]
     cases r with
-    | ok v =>
-      obtain ⟨N, hN⟩ := loop_ok (by simpa using hrun) (by rw [hsize]; omega)
-      refine ⟨N, fun fuel hf => ?_⟩
-      obtain ⟨t, ht, htt⟩ := hN fuel hf
-      unfold run runOn
-      rw [prologue_fresh, ht]
-      have h1 := congrArg VM.stack htt
-      have h2 := congrArg VM.scopes htt
-      have h3 := congrArg obs htt
-      exact ⟨rfl, h3, fun _ _ => ⟨h1, h2⟩⟩
-    | error e =>
-      obtain ⟨N, hN⟩ := loop_err (by simpa using hrun)
-      refine ⟨N, fun fuel hf => ?_⟩
-      obtain ⟨t, ht, htt⟩ := hN fuel hf
-      unfold run runOn
-      rw [prologue_fresh, ht]
-      exact ⟨rfl, htt, fun _ h => by cases h⟩
+    | ok v => simpa using hrun
+    | error e => simpa using hrun
   | some tc =>
     simp only [hcast, specOut] at hfit hsim hloop ⊢
     have hfit' := FitsU16.append.1 hfit
-    have hcode : CodeAt (progOf ⟨code ++ [li {} .cast tc], p.consts⟩) 0 code :=
-      (codeAt_of_layout (pre := []) (post := [li {} .cast tc]) (by simp [progOf, Compiled.bytes]) hfit'.1)
-    have hcast' : CodeAt (progOf ⟨code ++ [li {} .cast tc], p.consts⟩) (lsize code) [li {} .cast tc] :=
-      (codeAt_of_layout (pre := code) (post := []) (by simp [progOf, Compiled.bytes]) hfit'.2)
+    have hcode : CodeAt (lprogOf ⟨code ++ [li {} .cast tc], p.consts⟩ bl) 0 code :=
+      (codeAt_of_layout (pre := []) (post := [li {} .cast tc]) (by simp [lprogOf]) hfit'.1)
+    have hcast' : CodeAt (lprogOf ⟨code ++ [li {} .cast tc], p.consts⟩ bl) (lsize code) [li {} .cast tc] :=
+      (codeAt_of_layout (pre := code) (post := []) (by simp [lprogOf]) hfit'.2)
     have hrun := hsim 0 [] [] {} r σ' hcode rfl hev
-    have hsize : (progOf ⟨code ++ [li {} .cast tc], p.consts⟩).code.size = lsize code + 3 := by
-      simp [progOf, Compiled.bytes, encodeAll_length, lsize, codeSize, Instr.size, Op.hasArg]
     cases r with
-    | error e =>
-      obtain ⟨N, hN⟩ := loop_err (by simpa using hrun)
-      refine ⟨N, fun fuel hf => ?_⟩
-      obtain ⟨t, ht, htt⟩ := hN fuel hf
-      unfold run runOn
-      rw [prologue_fresh, ht]
-      exact ⟨rfl, htt, fun _ h => by cases h⟩
+    | error e => simpa using hrun
     | ok v =>
-      have hrun2 : Runs c (progOf ⟨code ++ [li {} .cast tc], p.consts⟩) (vm 0 [] [] {} c.budget) (outcome (castV tc v) (lsize code + 3) [] [] σ' c.budget) := by
-        refine Reach.runs (by simpa using hrun) ?_
-        have := Runs.cast_any (c := c) (st := []) (scs := []) (σ := σ') (lim := c.budget) (v := v) hcast'
-        exact this
-      cases hcv : castV tc v with
-      | ok w =>
-        rw [hcv] at hrun2
-        obtain ⟨N, hN⟩ := loop_ok (by simpa using hrun2) (by rw [hsize]; omega)
-        refine ⟨N, fun fuel hf => ?_⟩
-        obtain ⟨t, ht, htt⟩ := hN fuel hf
-        unfold run runOn
-        rw [prologue_fresh, ht]
-        have h1 := congrArg VM.stack htt
-        have h2 := congrArg VM.scopes htt
-        have h3 := congrArg obs htt
-        exact ⟨hcv.symm, h3, fun _ _ => ⟨h1, h2⟩⟩
-      | error e =>
-        rw [hcv] at hrun2
-        obtain ⟨N, hN⟩ := loop_err (by simpa using hrun2)
-        refine ⟨N, fun fuel hf => ?_⟩
-        obtain ⟨t, ht, htt⟩ := hN fuel hf
-        unfold run runOn
-        rw [prologue_fresh, ht]
-        exact ⟨hcv.symm, htt, fun _ h => by cases h⟩
+      refine Reach.runs (by simpa using hrun) ?_
+      have := Runs.cast_any (c := c) (st := []) (scs := []) (σ := σ') (lim := c.budget) (v := v) hcast'
+        (fun e he => hcb tc v e hcast he)
+      exact this.to_ip (by ip_arith)
+
+theorem run_conforms_gen {cfg : CompCfg} {n : Node} {cp : Compiled} {F : Val → Prop} {loops : Node → Prop} {c : Cfg}
+    (hc : compileProgram cfg n = .ok cp) (hF : AliasFree F) (hfl : FloatsIn F n) (hg : Good loops n)
+    (hfit : FitsU16 cp.code) (henv : EnvOK c cfg) (hloop : LoopCase c (lprogOf cp (fun _ _ => True)) loops) :
+    ∃ N, ∀ fuel, N ≤ fuel → RunAgrees (run c (progOf cp) fuel) (Spec.run (specOf c) cfg.cast n) := by
+  have hrun := program_runs (fun _ _ => True) hc hF hfl hg hfit henv hloop
+    (allBlame_trivial c _ (fun _ _ => trivial) n) (fun _ _ _ _ _ => trivial)
+  have hsize : (progOf cp).code.size = lsize cp.code := by
+    simp [progOf, Compiled.bytes, encodeAll_length, lsize]
+  unfold progOutcome at hrun
+  cases hsr : Spec.run (specOf c) cfg.cast n with
+  | mk r σ' =>
+  rw [hsr] at hrun
+  cases r with
+  | ok v =>
+    obtain ⟨N, hN⟩ := loop_ok (P := lprogOf cp (fun _ _ => True)) (by simpa using hrun)
+      (by show (progOf cp).code.size ≤ _; rw [hsize]; omega)
+    refine ⟨N, fun fuel hf => ?_⟩
+    obtain ⟨t, ht, htt⟩ := hN fuel hf
+    unfold run runOn
+    rw [prologue_fresh]
+    have ht' : loop c (progOf cp) fuel (vm 0 [] [] {} c.budget) = (.ok v, t) := ht
+    rw [ht']
+    have h1 := congrArg VM.stack htt
+    have h2 := congrArg VM.scopes htt
+    have h3 := congrArg obs htt
+    exact ⟨rfl, h3, fun _ _ => ⟨h1, h2⟩⟩
+  | error e =>
+    obtain ⟨N, hN⟩ := loop_err (P := lprogOf cp (fun _ _ => True)) (by simpa using hrun)
+    refine ⟨N, fun fuel hf => ?_⟩
+    obtain ⟨t, ht, htt⟩ := hN fuel hf
+    unfold run runOn
+    rw [prologue_fresh]
+    have ht' : loop c (progOf cp) fuel (vm 0 [] [] {} c.budget) = (.error e, t) := ht
+    rw [ht']
+    exact ⟨rfl, htt, fun _ h => by cases h⟩
 
 end ExprModel.Refine
